@@ -31,8 +31,12 @@ func runC04(c *Ctx) {
 	c.Rule("C04.D", "dedup decision dominates the worker start; the window of seen IDs is never reset", 6)
 	c.Rule("C04.O", "the dedup LRU is owned by the polling goroutine", 1)
 	c.Rule("C04.N", "dedup window ≥ 1000", 1)
-	c.Rule("C04.F", "a worker forwards once", 8)
+	c.Rule("C04.F", "a worker forwards once; stock error handling of the reverse proxy", 12)
 	ruleLoopSharedCapture(c, p, "C04.F", 1, "agent")
+	// the backend-facing reverse proxy keeps its stock error handling (= C07.G, C14.P): a custom
+	// ErrorHandler that serves the request again delivers a request the backend has already
+	// executed a second time
+	ruleReverseProxyFields(c, p, "C04.F")
 	c.Rule("C04.P", "the proxy offers each ID exactly once and loses none; the agent reads the list whole", 9)
 	ruleNoServerDeadlines(c, p, "C04.P")
 	// … and the agent hands every listed ID to its polling loop: the stand-alone proxy offers
@@ -74,7 +78,24 @@ func runC04(c *Ctx) {
 	if f := c.need(p, "C04.P", "agent/utils.parseRequestIDs"); f != nil {
 		bad := ""
 		n := 0
+		// the bytes that are parsed as the list (a capped read of an error body that is only
+		// reported is not a cap on the list)
+		onListPath := map[ssa.Value]bool{}
 		EachInstr(f, func(i ssa.Instruction) {
+			if cc := CallOf(i); cc != nil {
+				switch CalleeName(cc) {
+				case "encoding/json.Unmarshal", "encoding/json.NewDecoder":
+					SliceBack(PArgs(cc)[0], func(v ssa.Value) bool {
+						onListPath[v] = true
+						return true
+					})
+				}
+			}
+		})
+		EachInstr(f, func(i ssa.Instruction) {
+			if v, isV := i.(ssa.Value); isV && len(onListPath) > 0 && !onListPath[v] {
+				return
+			}
 			var lim ssa.Value
 			if al, ok := i.(*ssa.Alloc); ok && NamedType(al.Type()) == "io.LimitedReader" {
 				if v, has := LiteralField(al, "N"); has {
